@@ -6,6 +6,7 @@ package main
 // an untyped integer constant (for a program that compiles the two read the same).
 
 import (
+	"math"
 	"math/big"
 	"reflect"
 
@@ -71,5 +72,8 @@ func constTable() map[string]constVal {
 	k("erasure_coding.TotalShardsCount", erasure_coding.TotalShardsCount)
 	k("erasure_coding.ErasureCodingLargeBlockSize", erasure_coding.ErasureCodingLargeBlockSize)
 	k("erasure_coding.ErasureCodingSmallBlockSize", erasure_coding.ErasureCodingSmallBlockSize)
+	k("math.MaxInt64", int64(math.MaxInt64))
+	k("math.MaxInt32", int32(math.MaxInt32))
+	k("math.MaxUint32", uint32(math.MaxUint32))
 	return m
 }
